@@ -219,7 +219,7 @@ func judge(sc *Scenario, res *result) (misses []miss, classes []string) {
 				add(true, fmt.Sprintf("closed-without-reply:%s", sc.Proto), "MOSN ended the client connection (%s at %d us) without any reply", res.ConnEnd, res.ConnEndUs)
 			}
 		case res.Liveness == "proxy-alive":
-			add(true, "never-completes:"+hangCause(sc, res), "no reply until %d us (global timeout %d us) while a fresh exchange through the same proxy was answered at once", res.SilentUntil, us(gt))
+			add(true, "never-completes:"+hangCause(sc, res), "no reply until %d us (global timeout %d us) while a fresh exchange through the same MOSN process was answered at once", res.SilentUntil, us(gt))
 		default:
 			add(false, "silence", "no reply until %d us, liveness=%s", res.SilentUntil, res.Liveness)
 		}
@@ -298,6 +298,9 @@ func judge(sc *Scenario, res *result) (misses []miss, classes []string) {
 	if sc.ReqTimeout {
 		classes = append(classes, "timeout-in-request")
 	}
+	if sc.NumRetries >= 9 {
+		classes = append(classes, "retry-budget>=9")
+	}
 	if sc.Special != "" {
 		classes = append(classes, sc.Special)
 	}
@@ -316,6 +319,10 @@ func hangCause(sc *Scenario, res *result) string {
 			return sc.RetryOn
 		}
 		return false
+	}
+	if sc.NumRetries >= 9 && (len(res.Arrivals) >= 9 || !sc.allLive()) {
+		// the worker's phase loop re-enters at most 10 times (downstream.go OnReceive): a request that is still retrying then is dropped on the floor
+		return "retry-budget-above-9:phase-loop-exhausted"
 	}
 	stalledOnly := len(res.Arrivals) > 0
 	for _, a := range res.Arrivals {
